@@ -966,8 +966,9 @@ theorem ffoldl_visible (cfg : Cfg) (m : FMon) (ls : List FLabel) :
 theorem stepL_send (cfg : Cfg) (m : FMon) (j : Nat) :
     m.stepL cfg (.msg (.send j)) = { m with sentAfter := m.sentAfter ++ m.owed cfg j false } := rfl
 theorem stepL_bsend (cfg : Cfg) (m : FMon) (ps : List Nat) (j : Nat) :
-    m.stepL cfg (.msg (.bsend ps j)) = { m with sentAfter := m.sentAfter ++ m.owed cfg j false
-      ++ ((ps.filter fun k => cfg.obliges j k).map fun k => (k, j, Why.body)) } := rfl
+    m.stepL cfg (.msg (.bsend ps j)) = { m with
+      sentAfter := (m.sentAfter ++ m.owed cfg j false ++ ((ps.filter fun k => cfg.obliges j k).map fun k => (k, j, Why.body))),
+      bodies := (m.bodies ++ ps.map fun k => (k, j)) } := rfl
 theorem stepL_ret (cfg : Cfg) (m : FMon) (i : Nat) :
     m.stepL cfg (.msg (.ret i)) = { m with returned := (i, .later) :: m.returned } := rfl
 theorem stepL_fin (cfg : Cfg) (m : FMon) (i : Nat) :
@@ -991,6 +992,28 @@ theorem owed_mem {cfg : Cfg} {m : FMon} {j : Nat} {b : Bool} {x : Nat × Nat × 
   obtain ⟨r, ⟨hr, hc⟩, rfl⟩ := h
   simp only [Cfg.obliges, Bool.and_eq_true, beq_iff_eq] at hc
   exact ⟨r, hr, rfl, hc.1.1.1, hc.1.1.2⟩
+
+/-- What is visible of a model run contains no `enq` event, so the queue-order clause cannot fire on it (for
+the model's own counterpart of these events see `fvisibleQ` below). -/
+theorem stepL_badEnq (cfg : Cfg) (m : FMon) (l : FLabel) (h : m.badEnq = none) : (m.stepL cfg l).badEnq = none := by
+  cases l with
+  | msg l0 =>
+    cases l0 <;> try exact h
+    case start j =>
+      rw [stepL_start]
+      simp only [FMon.step]
+      split
+      · exact h
+      · split <;> exact h
+  | fcall g => exact h
+  | ferr c => exact h
+  | fret g => exact h
+
+theorem foldl_badEnq (cfg : Cfg) (m : FMon) (ls : List FLabel) (h : m.badEnq = none) :
+    (ls.foldl (FMon.stepL cfg) m).badEnq = none := by
+  induction ls generalizing m with
+  | nil => exact h
+  | cons l ls ih => exact ih _ (stepL_badEnq cfg m l h)
 
 /-- The monitor's bookkeeping is backed by the model's ghost state. -/
 structure FSim (kind : Nat → Kind) (t : Topo) (S : FState) (m : FMon) : Prop where
@@ -1217,7 +1240,8 @@ theorem fan_monitor_accepts_runs {kind : Nat → Kind} {t : Topo} {ls : List FLa
     (h : frun (step kind) t finit ls = some S) : fholdsOn (t.cfg kind) (fvisible ls) = true := by
   have hsim : FSim kind t finit ({} : FMon) := ⟨by simp, by simp [finit], by simp, by intro i; simp [finit, init], rfl⟩
   have := fsim_run (finv_init t) (finvK_init kind t) hsim h
-  simp [fholdsOn, fmonitor, ffoldl_visible, this.ok]
+  have hq := foldl_badEnq (t.cfg kind) ({} : FMon) ls rfl
+  simp [fholdsOn, fmonitor, ffoldl_visible, this.ok, hq]
 
 /-! ### stateless streamable servers: every pair is a temporary session per message (`stepE`) -/
 
@@ -1439,7 +1463,8 @@ theorem fan_monitor_accepts_ephemeral_runs (kind : Nat → Kind) {t : Topo} {ls 
   have hsim : FSimE t finit ({} : FMon) :=
     ⟨by intro p i hi; simp [finit, init] at hi, by simp, by simp [finit], by simp, by intro i; simp [finit, init], rfl⟩
   have := fsimE_run (kind := kind) (finv_init t) hsim h
-  simp [fholdsOn, fmonitor, ffoldl_visible, this.ok]
+  have hq := foldl_badEnq (t.cfg kind) ({} : FMon) ls rfl
+  simp [fholdsOn, fmonitor, ffoldl_visible, this.ok, hq]
 
 /-! ### one pair alone -/
 
